@@ -102,8 +102,10 @@ namespace foonathan
             memory_pool& operator=(memory_pool&& other) noexcept
             {
                 leak_checker::operator=(detail::move(other));
-                arena_     = detail::move(other.arena_);
+                // the free list must go first: assigning the arena releases the old blocks,
+                // and moving the list relinks the old nodes inside them
                 free_list_ = detail::move(other.free_list_);
+                arena_     = detail::move(other.arena_);
                 return *this;
             }
             /// @}
